@@ -296,6 +296,31 @@ class NPFacade:
             a = int(a)
         return np.mod(a, b)
 
+    def einsum(self, subs, *ops, **kw):
+        if builtins.any(_has_q(o) or _is_obj(_obj(o)) for o in ops):
+            if subs.replace(" ", "") == "ij,ik->jk" and len(ops) == 2:
+                a, b = _obj(ops[0]), _obj(ops[1])
+                out = np.empty((a.shape[1], b.shape[1]), dtype=object)
+                for j in range(a.shape[1]):
+                    for k in range(b.shape[1]):
+                        tot = qconst(0)
+                        for i in range(a.shape[0]):
+                            tot = tot + a[i, j] * b[i, k]
+                        out[j, k] = tot
+                return out
+            raise NotImplementedError("einsum " + subs)
+        return np.einsum(subs, *ops, **kw)
+
+    def outer(self, a, b):
+        a0, b0 = _obj(a).ravel(), _obj(b).ravel()
+        if a0.dtype == object or b0.dtype == object:
+            out = np.empty((len(a0), len(b0)), dtype=object)
+            for i in range(len(a0)):
+                for j in range(len(b0)):
+                    out[i, j] = a0[i] * b0[j]
+            return out
+        return np.outer(a, b)
+
     def dot(self, a, b):
         a0, b0 = _obj(a), _obj(b)
         if a0.dtype == object or b0.dtype == object:
